@@ -21,6 +21,18 @@ for cfg in ("default", "explanations", "checks", "checks_explanations"):
         out.setdefault("%s::%s" % (file, name), sig)
 json.dump(out, open("/verif/anchors.json", "w"), indent=0, sort_keys=True)
 print(len(out), "anchors")
+# callee names per function (tie-break when several functions of one signature are renamed together)
+calls = {}
+for cfg in ("default", "explanations", "checks", "checks_explanations"):
+    crate = mir.Crate(facts.load(cfg, "slotted_egraphs"), use_anchors=False)
+    for b in crate.bodies.values():
+        if b.kind == "Closure" or not (b.file or "").startswith("src/") or b.auto_derived or not b.name:
+            continue
+        k = "%s::%s" % (b.file, b.name)
+        if k in out and k not in calls:
+            calls[k] = sorted({c.callee.name for c in b.calls if c.callee is not None and not b.blocks[c.bb]["cleanup"]})
+json.dump(calls, open("/verif/anchors_calls.json", "w"), indent=0, sort_keys=True)
+print(len(calls), "callee lists")
 # fields of the library's own structs / enum variants (name, type): a renamed private field is found again by its type
 adts = {}
 for cfg in ("default", "explanations", "checks", "checks_explanations"):
